@@ -77,7 +77,9 @@ pub fn clone_sweep_case(len: usize, state: usize, clones: usize, multi: bool) ->
     let base_rc = shadow::refcount_of(&src);
     let before = requests();
     let mut copies: Vec<LeanString> = Vec::with_capacity(clones);
+    let mut other_allocs = 0u64;
     for i in 0..clones {
+        let g0 = shadow::global_allocs();
         let c = match i % 5 {
             0 => src.clone(),
             1 => LeanString::from(&src),
@@ -89,14 +91,22 @@ pub fn clone_sweep_case(len: usize, state: usize, clones: usize, multi: bool) ->
             _ => {
                 let mut c = LeanString::from("previous value that is long enough for the heap");
                 let r0 = requests();
+                let g1 = shadow::global_allocs();
                 c.clone_from(&src);
+                other_allocs += shadow::global_allocs() - g1;
                 if requests() != r0 {
                     return fail("C08.no_alloc", format!("clone_from a {len}-byte string issued an allocator request"));
                 }
                 c
             }
         };
+        if i % 5 != 4 {
+            other_allocs += shadow::global_allocs() - g0;
+        }
         copies.push(c);
+    }
+    if other_allocs != 0 {
+        return fail("C08.no_alloc", format!("{clones} clone-like call(s) of a {len}-byte string (state {state}) performed {other_allocs} heap allocation(s) outside the string buffers"));
     }
     // clone_from's previous value was allocated by the sweep itself: count only clone-like calls
     let extra = (0..clones).filter(|i| i % 5 == 4).count() as u64;
@@ -235,26 +245,49 @@ pub fn c08(tier: Tier, seed: u64) -> Verdict {
 
 const ROUTES: [&str; 11] = ["from_str", "from_string", "from_ref_string", "from_box_str", "from_cow_borrowed", "from_cow_owned", "parse", "from_utf8", "string_to_lean_string", "from_static_str", "from_utf8_unchecked"];
 
-fn build_route(route: usize, text: &str) -> LeanString {
+enum Input<'a> {
+    Str(&'a str),
+    String(String),
+    BoxStr(Box<str>),
+    Cow(Cow<'a, str>),
+    Static(&'static str),
+}
+
+fn prepare(route: usize, text: &str) -> Input<'_> {
     match route {
-        0 => LeanString::from(text),
-        1 => LeanString::from(text.to_string()),
-        2 => LeanString::from(&text.to_string()),
-        3 => LeanString::from(text.to_string().into_boxed_str()),
-        4 => LeanString::from(Cow::Borrowed(text)),
-        5 => LeanString::from(Cow::<str>::Owned(text.to_string())),
-        6 => LeanString::from_str(text).unwrap(),
-        7 => LeanString::from_utf8(text.as_bytes()).unwrap(),
-        8 => text.to_string().to_lean_string(),
-        9 => LeanString::from_static_str(Box::leak(text.to_string().into_boxed_str())),
-        _ => unsafe { LeanString::from_utf8_unchecked(text.as_bytes()) },
+        0 | 6 | 7 | 10 => Input::Str(text),
+        1 | 2 | 8 => Input::String(text.to_string()),
+        3 => Input::BoxStr(text.to_string().into_boxed_str()),
+        4 => Input::Cow(Cow::Borrowed(text)),
+        5 => Input::Cow(Cow::Owned(text.to_string())),
+        _ => Input::Static(Box::leak(text.to_string().into_boxed_str())),
+    }
+}
+
+/// the conversion itself (the input already exists): this is the window in which allocations are counted
+fn convert(route: usize, input: Input<'_>) -> LeanString {
+    match (route, input) {
+        (0, Input::Str(t)) => LeanString::from(t),
+        (1, Input::String(s)) => LeanString::from(s),
+        (2, Input::String(s)) => LeanString::from(&s),
+        (3, Input::BoxStr(b)) => LeanString::from(b),
+        (4 | 5, Input::Cow(c)) => LeanString::from(c),
+        (6, Input::Str(t)) => LeanString::from_str(t).unwrap(),
+        (7, Input::Str(t)) => LeanString::from_utf8(t.as_bytes()).unwrap(),
+        (8, Input::String(s)) => s.to_lean_string(),
+        (9, Input::Static(t)) => LeanString::from_static_str(t),
+        (_, Input::Str(t)) => unsafe { LeanString::from_utf8_unchecked(t.as_bytes()) },
+        _ => unreachable!(),
     }
 }
 
 /// C09 constructor clause for one (route, text)
 pub fn ctor_case(route: usize, text: &str) -> Result<(), (String, String)> {
     shadow::with(|h| h.begin_case());
-    let s = build_route(route, text);
+    let input = prepare(route, text);
+    let g0 = shadow::global_allocs();
+    let s = convert(route, input);
+    let other_allocs = shadow::global_allocs() - g0;
     let (req, allocs): (u64, Vec<usize>) = shadow::with(|h| {
         (h.requests_total, h.events.iter().filter(|e| e.kind == shadow::EvKind::Alloc).map(|e| e.size).collect())
     });
@@ -262,6 +295,17 @@ pub fn ctor_case(route: usize, text: &str) -> Result<(), (String, String)> {
     let r = (|| {
         if s.as_str() != text {
             return Err(("C01.value".to_string(), format!("{}({text:?}) reads {:?}", ROUTES[route], s.as_str())));
+        }
+        if other_allocs != 0 {
+            // an allocation that is not one of the crate's own buffers (a temporary String, Vec, Box ...)
+            return Err((
+                if n <= 16 { "C09.short_no_alloc" } else { "C09.long_exact" }.to_string(),
+                format!(
+                    "{} of a {n}-byte text performed {other_allocs} heap allocation(s) besides the string's own buffer ({} expected in total)",
+                    ROUTES[route],
+                    if n <= 16 || route == 9 { "none" } else { "exactly one" }
+                ),
+            ));
         }
         if n <= 16 {
             if req != 0 || s.is_heap_allocated() {
@@ -300,8 +344,10 @@ pub fn ctor_case(route: usize, text: &str) -> Result<(), (String, String)> {
 fn short_value_case<T: ToLeanString + std::fmt::Display>(v: T, what: &str) -> Result<bool, (String, String)> {
     shadow::with(|h| h.begin_case());
     let want = v.to_string();
+    let g0 = shadow::global_allocs();
     let s = v.to_lean_string();
-    let req = requests();
+    let other = shadow::global_allocs() - g0;
+    let req = requests() + other;
     let heap = s.is_heap_allocated();
     let ok_text = s.as_str() == want;
     drop(s);
